@@ -229,9 +229,12 @@ Theorem C10mk_varassign_ml_single : forall text : str,
 Proof. exact ml_single. Qed.
 Print Assumptions C10mk_varassign_ml_single.
 
-(* the guard as coded: an accepted multi-line assignment has "=" in its first raw line *)
+(* the guard (repaired code): an accepted multi-line assignment has its operator in the first raw
+   line - the raw text of the logical line up to the operator (the alignment prefix without its
+   trailing blanks) is no longer than the first physical line without continuation backslash *)
 Theorem C10mk_varassign_ml_guard : forall (raw0 text : str) (a : varassign),
-  parse_varassign_ml true raw0 text = Ok (Some a) -> first_raw_has_equals raw0 = true.
+  parse_varassign_ml true raw0 text = Ok (Some a) ->
+  exists al r, text = al ++ r /\ (length (rtrim_hspace al) <= length (first_line_of raw0))%nat.
 Proof. exact varassign_ml_guard. Qed.
 Print Assumptions C10mk_varassign_ml_guard.
 
@@ -248,12 +251,12 @@ Theorem C10mk_varassign_ml_value_comment_recombine :
 Proof. exact varassign_ml_value_comment_recombine. Qed.
 Print Assumptions C10mk_varassign_ml_value_comment_recombine.
 
-(* the alignment prefix of an accepted assignment is a prefix of the FIRST RAW LINE, followed by
-   blanks only when the value is empty (the spaceBeforeComment moved into it) *)
+(* the alignment prefix of an accepted assignment is a prefix of the logical text (of which the first
+   physical line is a prefix), followed by blanks only when the value is empty *)
 Theorem C10mk_varassign_ml_align_prefix :
   forall (multiline : bool) (raw0 text : str) (a : varassign),
   parse_varassign_ml multiline raw0 text = Ok (Some a) ->
-  exists al r sp, raw0 = al ++ r /\ va_value_align a = al ++ sp /\ forallb is_hspace sp = true /\
+  exists al r sp, text = al ++ r /\ va_value_align a = al ++ sp /\ forallb is_hspace sp = true /\
     (va_value a <> [] -> sp = []).
 Proof. exact varassign_ml_align_prefix. Qed.
 Print Assumptions C10mk_varassign_ml_align_prefix.
@@ -265,30 +268,30 @@ Theorem C10mk_varassign_file_lines :
   Forall (fun lr : Lines.line * res (option varassign) =>
     forall a, snd lr = Ok (Some a) ->
       va_law (Lines.text (fst lr)) a /\
-      (line_multiline (fst lr) = true -> first_raw_has_equals (line_raw0 (fst lr)) = true)) ls.
+      (line_multiline (fst lr) = true ->
+       exists al r, Lines.text (fst lr) = al ++ r /\
+         (length (rtrim_hspace al) <= length (first_line_of (line_raw0 (fst lr))))%nat)) ls.
 Proof. exact varassign_of_file_lines. Qed.
 Print Assumptions C10mk_varassign_file_lines.
 
-(* FULL statement: a logical line whose text alone parses without panic does not make
-   matchVarassign panic either.  FALSE of the faithful model (and of the real code): the guard
-   looks for ANY "=" in the first raw line, not for the operator. *)
-Definition C10mk_varassign_ml_no_panic_full : Prop := ml_no_panic_full.
+(* FULL statement, now a theorem (since the repair of the guard): matchVarassign does not panic on a
+   logical line, whatever its raw lines are, unless parsing the logical text alone does *)
+Theorem C10mk_varassign_ml_no_panic_line : forall (multiline : bool) (raw0 text : str) (r : option varassign),
+  parse_varassign text = Ok r -> parse_varassign_ml multiline raw0 text <> Panic.
+Proof. exact varassign_ml_no_panic. Qed.
+Print Assumptions C10mk_varassign_ml_no_panic_line.
 
-Theorem C10mk_varassign_ml_no_panic_refuted : ~ C10mk_varassign_ml_no_panic_full.
-Proof. exact ml_no_panic_refuted. Qed.
-Print Assumptions C10mk_varassign_ml_no_panic_refuted.
+(* ... and for every line convertToLogicalLines builds from any file text (line.raw[0] exists: C09) *)
+Theorem C10mk_varassign_ml_no_panic :
+  forall (raw_text : str) (ls : list (Lines.line * res (option varassign))),
+  varassign_of_file raw_text = Ok ls ->
+  Forall (fun lr : Lines.line * res (option varassign) =>
+    (exists r, parse_varassign (Lines.text (fst lr)) = Ok r) -> snd lr <> Panic) ls.
+Proof. exact ml_no_panic. Qed.
+Print Assumptions C10mk_varassign_ml_no_panic.
 
-(* the witness: VAR.${PARAM:S,=,,}\ / = value *)
+(* the former witness of the panic (fixed): VAR.${PARAM:S,=,,}\ / = value is no assignment *)
 Example C10mk_varassign_ml_witness :
   varassign_of_file ml_witness_file =
-    Ok [(Lines.mk_line 1 ml_witness_text [ml_witness_raw0 ++ [10]; [61;32;118;97;108;117;101;10]], Panic)].
+    Ok [(Lines.mk_line 1 ml_witness_text [ml_witness_raw0 ++ [10]; [61;32;118;97;108;117;101;10]], Ok None)].
 Proof. exact ml_witness_lines. Qed.
-
-(* PARTIAL: without any "=" in the first raw line the line is rejected before the raw line is
-   looked at: no panic beyond those of parsing the logical text itself *)
-Theorem C10mk_varassign_ml_no_panic_partial : forall (raw0 text : str) (r : option varassign),
-  first_raw_has_equals raw0 = false ->
-  parse_varassign text = Ok r ->
-  parse_varassign_ml true raw0 text = Ok None.
-Proof. exact varassign_ml_rejected. Qed.
-Print Assumptions C10mk_varassign_ml_no_panic_partial.
